@@ -19,6 +19,11 @@
 //	         rounds than that recovery did (until the cap) and never zero; a fuse
 //	         long after the previous recovery is back at the base requirement; 121
 //	         consecutive successful rounds always suffice.
+//
+// Both sub-checks drive a group of 1-3 replicas whose fuse / recovery strategies
+// are installed by the real DBInfo.InitFuseRecoveryPolicy, with the replicas'
+// fuse events and probe rounds interleaved; the reference keeps independent state
+// per replica, and a step on one replica must never change another one.
 package c27
 
 import (
@@ -113,43 +118,93 @@ func genGoodRepl(t *rapid.T, cfg hf.Config) hf.Repl {
 
 // ---- hard policy ----
 
-func genHard(t *rapid.T) histCase {
-	c := histCase{Cfg: genBase(t, "hard")}
-	cd := rapid.SampledFrom([]int{1, 2, 3, 4, 5, 6, 8, 9, 12, 15, 20, 30, 60, 119, 120}).Draw(t, "cooldown")
-	c.Cfg.Cooldown = int64(cd)
-	blocks := rapid.IntRange(1, 4).Draw(t, "blocks")
+// genReplicas draws the size of the replica group; all strategies of the group
+// are installed by one DBInfo.InitFuseRecoveryPolicy call.
+func genReplicas(t *rapid.T) int {
+	return rapid.SampledFrom([]int{1, 2, 2, 2, 3, 3}).Draw(t, "replicas")
+}
+
+// interleave merges the per-replica streams into one history, keeping the order
+// inside each stream. Ops of replicas other than the first mostly happen at the
+// same instant as the previous op (one health tick probes all replicas).
+func interleave(t *rapid.T, streams [][]hf.Op) []hf.Op {
+	var out []hf.Op
+	idx := make([]int, len(streams))
+	for {
+		var live []int
+		for i := range streams {
+			if idx[i] < len(streams[i]) {
+				live = append(live, i)
+			}
+		}
+		if len(live) == 0 {
+			return out
+		}
+		i := live[0]
+		if len(live) > 1 {
+			i = live[rapid.IntRange(0, len(live)-1).Draw(t, "next_stream")]
+		}
+		op := streams[i][idx[i]]
+		idx[i]++
+		op.Node = i
+		if i > 0 && op.K != "adv" && rapid.IntRange(0, 2).Draw(t, "same_tick") != 0 {
+			op.Dt = 0
+		}
+		out = append(out, op)
+	}
+}
+
+func genHardStream(t *rapid.T, cfg hf.Config, blocks int) []hf.Op {
+	var ops []hf.Op
+	cd := int(cfg.Cooldown)
 	for b := 0; b < blocks; b++ {
 		// quiet time, then the errors that trip the breaker
-		c.Ops = append(c.Ops, hf.Op{K: "adv", Dt: int64(rapid.IntRange(0, 20).Draw(t, "quiet"))})
+		ops = append(ops, hf.Op{K: "adv", Dt: int64(rapid.IntRange(0, 20).Draw(t, "quiet"))})
 		via := rapid.SampledFrom([]string{"", "", "getconn"}).Draw(t, "via")
-		c.Ops = append(c.Ops, hf.Op{K: "fuse", Err: "conn", Via: via, N: int(c.Cfg.FuseMinErr)})
+		ops = append(ops, hf.Op{K: "fuse", Err: "conn", Via: via, N: int(cfg.FuseMinErr)})
 		if rapid.IntRange(0, 5).Draw(t, "noise_err") == 0 {
-			c.Ops = append(c.Ops, hf.Op{K: "fuse", Err: rapid.SampledFrom([]string{"sql", "generic", "nil"}).Draw(t, "noise_kind"), N: 2})
+			ops = append(ops, hf.Op{K: "fuse", Err: rapid.SampledFrom([]string{"sql", "generic", "nil"}).Draw(t, "noise_kind"), N: 2})
 		}
 		segs := rapid.IntRange(1, 5).Draw(t, "segments")
 		for s := 0; s < segs; s++ {
 			switch rapid.IntRange(0, 11).Draw(t, "seg") {
 			case 0: // a failing probe inside the cool-down
-				c.Ops = append(c.Ops, hf.Op{K: "round", Dt: 4, N: rapid.IntRange(1, 2).Draw(t, "n"), Probe: genFailProbe(t, c.Cfg)})
+				ops = append(ops, hf.Op{K: "round", Dt: 4, N: rapid.IntRange(1, 2).Draw(t, "n"), Probe: genFailProbe(t, cfg)})
 			case 1: // master not up
-				c.Ops = append(c.Ops, hf.Op{K: "round", Dt: 4, Master: rapid.SampledFrom([]string{"down", "down", "missing"}).Draw(t, "master"),
+				ops = append(ops, hf.Op{K: "round", Dt: 4, Master: rapid.SampledFrom([]string{"down", "down", "missing"}).Draw(t, "master"),
 					Probe: rapid.SampledFrom([]hf.Probe{{}, {}, {GetCheck: "err"}}).Draw(t, "mprobe")})
 			case 2: // replication unhealthy
-				c.Ops = append(c.Ops, hf.Op{K: "round", Dt: 4, Probe: genPassProbe(t, c.Cfg), Repl: genBadRepl(t, c.Cfg)})
+				ops = append(ops, hf.Op{K: "round", Dt: 4, Probe: genPassProbe(t, cfg), Repl: genBadRepl(t, cfg)})
 			case 3: // the breaker trips again while the replica is down (two sessions had picked it)
-				c.Ops = append(c.Ops, hf.Op{K: "fuse", Err: "conn", Dt: int64(rapid.IntRange(0, 3).Draw(t, "refuse_dt")), N: int(c.Cfg.FuseMinErr)})
+				ops = append(ops, hf.Op{K: "fuse", Err: "conn", Dt: int64(rapid.IntRange(0, 3).Draw(t, "refuse_dt")), N: int(cfg.FuseMinErr)})
 			case 4, 10, 11: // jump to just before the end of the cool-down, then second by second
-				c.Ops = append(c.Ops, hf.Op{K: "adv", Dt: int64(max(0, cd-rapid.IntRange(0, 6).Draw(t, "before_end")))})
-				c.Ops = append(c.Ops, hf.Op{K: "round", Dt: 1, N: rapid.IntRange(2, 8).Draw(t, "n1"), Probe: genPassProbe(t, c.Cfg), Repl: genGoodRepl(t, c.Cfg)})
+				ops = append(ops, hf.Op{K: "adv", Dt: int64(max(0, cd-rapid.IntRange(0, 6).Draw(t, "before_end")))})
+				ops = append(ops, hf.Op{K: "round", Dt: 1, N: rapid.IntRange(2, 8).Draw(t, "n1"), Probe: genPassProbe(t, cfg), Repl: genGoodRepl(t, cfg)})
 			default: // ordinary successful rounds at the ping period
-				c.Ops = append(c.Ops, hf.Op{K: "round", Dt: rapid.SampledFrom([]int64{4, 4, 4, 1, 0, 5}).Draw(t, "dt"), N: rapid.IntRange(1, 6).Draw(t, "n"),
-					Probe: genPassProbe(t, c.Cfg), Repl: genGoodRepl(t, c.Cfg)})
+				ops = append(ops, hf.Op{K: "round", Dt: rapid.SampledFrom([]int64{4, 4, 4, 1, 0, 5}).Draw(t, "dt"), N: rapid.IntRange(1, 6).Draw(t, "n"),
+					Probe: genPassProbe(t, cfg), Repl: genGoodRepl(t, cfg)})
 			}
 		}
 		if rapid.IntRange(0, 4).Draw(t, "finish") != 0 {
-			c.Ops = append(c.Ops, hf.Op{K: "round", Dt: rapid.SampledFrom([]int64{4, 4, 1, 2}).Draw(t, "finish_dt"), N: cd + 3, UntilUp: true, Repl: genGoodRepl(t, c.Cfg)})
+			ops = append(ops, hf.Op{K: "round", Dt: rapid.SampledFrom([]int64{4, 4, 1, 2}).Draw(t, "finish_dt"), N: cd + 3, UntilUp: true, Repl: genGoodRepl(t, cfg)})
 		}
 	}
+	return ops
+}
+
+func genHard(t *rapid.T) histCase {
+	c := histCase{Cfg: genBase(t, "hard")}
+	c.Cfg.Cooldown = int64(rapid.SampledFrom([]int{1, 2, 3, 4, 5, 6, 8, 9, 12, 15, 20, 30, 60, 119, 120}).Draw(t, "cooldown"))
+	c.Cfg.Replicas = genReplicas(t)
+	var streams [][]hf.Op
+	for i := 0; i < c.Cfg.Replicas; i++ {
+		blocks := rapid.IntRange(1, 4).Draw(t, "blocks")
+		if i > 0 {
+			blocks = rapid.IntRange(1, 3).Draw(t, "blocks_other")
+		}
+		streams = append(streams, genHardStream(t, c.Cfg, blocks))
+	}
+	c.Ops = interleave(t, streams)
 	return c
 }
 
@@ -159,6 +214,29 @@ func labelSet(o *pbt.Outcome) func(string) {
 		if !seen[l] {
 			seen[l] = true
 			o.Labels = append(o.Labels, l)
+		}
+	}
+}
+
+// groupLabels labels the size of the replica group and whether two replicas of
+// the group were down by the breaker at the same time (the situation in which
+// shared recovery state would show).
+func groupLabels(c histCase, tr hf.Trace, label func(string)) {
+	label(fmt.Sprintf("replicas_%d", max(1, c.Cfg.Replicas)))
+	fused := map[int]bool{}
+	for _, st := range tr.Steps {
+		fused[st.Node] = !st.After && (st.FusedDown || (st.Before && st.Cat == "fuse_trigger"))
+		n := 0
+		for _, f := range fused {
+			if f {
+				n++
+			}
+		}
+		if n >= 2 {
+			label("two_replicas_fused_at_once")
+			if st.Kind == "round" && st.FullPass {
+				label("passing_round_while_two_replicas_fused")
+			}
 		}
 	}
 }
@@ -173,7 +251,12 @@ func checkHard(c histCase) (o pbt.Outcome) {
 		o.Violation = "runtime panic: " + tr.Panic
 		return
 	}
+	if len(tr.Other) > 0 {
+		o.Violation = tr.Other[0]
+		return
+	}
 	label := labelSet(&o)
+	groupLabels(c, tr, label)
 	early, late := false, false
 	for _, st := range tr.Steps {
 		if st.Kind != "round" {
@@ -209,20 +292,14 @@ func checkHard(c histCase) (o pbt.Outcome) {
 
 func TestC27Hard(t *testing.T) {
 	pbt.Run(t, pbt.Spec{ID: "C27", Sub: "hard", Quick: 20000, Thorough: 120000,
-		Rule: "hard policy, cool-down 1-120 s, breaker window 1-8 s / threshold 1-3; 1-4 blocks of [quiet time, errors that trip the breaker (TryFuse or failing Get), segments of rounds: passing at 4 s / 1 s steps across the end of the cool-down, failing probes, master down/missing, unhealthy replication, re-trip while down]; non-trivial = a fully passing round on the fused replica both before and after the cool-down ended",
+		Rule: "hard policy, cool-down 1-120 s, breaker window 1-8 s / threshold 1-3; a group of 1-3 replicas whose strategies are installed by one DBInfo.InitFuseRecoveryPolicy call, each with its own stream (randomly interleaved, reference state independent per replica) of 1-4 blocks of [quiet time, errors that trip the breaker (TryFuse or failing Get), segments of rounds: passing at 4 s / 1 s steps across the end of the cool-down, failing probes, master down/missing, unhealthy replication, re-trip while down]; non-trivial = a fully passing round on the fused replica both before and after the cool-down ended",
 		Floor: 0.5}, genHard, checkHard)
 }
 
 // ---- gradual policy ----
 
-func genGradual(t *rapid.T) histCase {
-	c := histCase{Cfg: genBase(t, "gradual")}
-	c.Cfg.DownAfter = rapid.SampledFrom([]int{8, 16, 32, 64}).Draw(t, "down_after_g")
-	mode := rapid.IntRange(0, 3).Draw(t, "mode") // 0: mostly fuses soon after recovery (penalty ladder up to the cap)
-	blocks := rapid.IntRange(2, 9).Draw(t, "blocks")
-	if mode == 0 {
-		blocks = rapid.IntRange(4, 15).Draw(t, "blocks_ladder")
-	}
+func genGradualStream(t *rapid.T, cfg hf.Config, mode, blocks int) []hf.Op {
+	var ops []hf.Op
 	for b := 0; b < blocks; b++ {
 		soon := rapid.IntRange(0, 3).Draw(t, "soon") != 0
 		if mode == 0 {
@@ -235,28 +312,50 @@ func genGradual(t *rapid.T) histCase {
 		if rapid.IntRange(0, 14).Draw(t, "gap_edge") == 0 {
 			gap = 8
 		}
-		c.Ops = append(c.Ops, hf.Op{K: "fuse", Err: "conn", Dt: gap, N: int(c.Cfg.FuseMinErr),
+		ops = append(ops, hf.Op{K: "fuse", Err: "conn", Dt: gap, N: int(cfg.FuseMinErr),
 			Via: rapid.SampledFrom([]string{"", "", "getconn"}).Draw(t, "via")})
 		segs := rapid.IntRange(0, 3).Draw(t, "segments")
 		for s := 0; s < segs; s++ {
 			switch rapid.IntRange(0, 7).Draw(t, "seg") {
 			case 0, 1, 2: // a run of successful rounds that may or may not suffice
-				c.Ops = append(c.Ops, hf.Op{K: "round", Dt: 4, N: rapid.IntRange(1, 25).Draw(t, "run"), UntilUp: true,
-					Probe: genPassProbe(t, c.Cfg), Repl: genGoodRepl(t, c.Cfg)})
+				ops = append(ops, hf.Op{K: "round", Dt: 4, N: rapid.IntRange(1, 25).Draw(t, "run"), UntilUp: true,
+					Probe: genPassProbe(t, cfg), Repl: genGoodRepl(t, cfg)})
 			case 3, 4: // failed probe(s): the count restarts
-				c.Ops = append(c.Ops, hf.Op{K: "round", Dt: 4, N: rapid.IntRange(1, 2).Draw(t, "nfail"), Probe: genFailProbe(t, c.Cfg)})
+				ops = append(ops, hf.Op{K: "round", Dt: 4, N: rapid.IntRange(1, 2).Draw(t, "nfail"), Probe: genFailProbe(t, cfg)})
 			case 5: // master not up
-				c.Ops = append(c.Ops, hf.Op{K: "round", Dt: 4, Master: "down", Probe: rapid.SampledFrom([]hf.Probe{{}, {GetCheck: "err"}}).Draw(t, "mprobe")})
+				ops = append(ops, hf.Op{K: "round", Dt: 4, Master: "down", Probe: rapid.SampledFrom([]hf.Probe{{}, {GetCheck: "err"}}).Draw(t, "mprobe")})
 			case 6: // replication unhealthy
-				c.Ops = append(c.Ops, hf.Op{K: "round", Dt: 4, Probe: genPassProbe(t, c.Cfg), Repl: genBadRepl(t, c.Cfg)})
+				ops = append(ops, hf.Op{K: "round", Dt: 4, Probe: genPassProbe(t, cfg), Repl: genBadRepl(t, cfg)})
 			default: // breaker trips again while down
-				c.Ops = append(c.Ops, hf.Op{K: "fuse", Err: "conn", N: int(c.Cfg.FuseMinErr)})
+				ops = append(ops, hf.Op{K: "fuse", Err: "conn", N: int(cfg.FuseMinErr)})
 			}
 		}
 		if rapid.IntRange(0, 7).Draw(t, "finish") != 0 {
-			c.Ops = append(c.Ops, hf.Op{K: "round", Dt: 4, N: 125, UntilUp: true, Repl: genGoodRepl(t, c.Cfg)})
+			// split the finishing run so that other replicas' ops can fall in between
+			ops = append(ops, hf.Op{K: "round", Dt: 4, N: rapid.IntRange(1, 12).Draw(t, "finish_head"), UntilUp: true, Repl: genGoodRepl(t, cfg)})
+			ops = append(ops, hf.Op{K: "round", Dt: 4, N: 125, UntilUp: true, Repl: genGoodRepl(t, cfg)})
 		}
 	}
+	return ops
+}
+
+func genGradual(t *rapid.T) histCase {
+	c := histCase{Cfg: genBase(t, "gradual")}
+	c.Cfg.DownAfter = rapid.SampledFrom([]int{8, 16, 32, 64}).Draw(t, "down_after_g")
+	c.Cfg.Replicas = genReplicas(t)
+	mode := rapid.IntRange(0, 3).Draw(t, "mode") // 0: mostly fuses soon after recovery (penalty ladder up to the cap)
+	var streams [][]hf.Op
+	for i := 0; i < c.Cfg.Replicas; i++ {
+		blocks := rapid.IntRange(2, 9).Draw(t, "blocks")
+		if mode == 0 && i == 0 {
+			blocks = rapid.IntRange(4, 15).Draw(t, "blocks_ladder")
+		}
+		if i > 0 {
+			blocks = rapid.IntRange(1, 5).Draw(t, "blocks_other")
+		}
+		streams = append(streams, genGradualStream(t, c.Cfg, mode, blocks))
+	}
+	c.Ops = interleave(t, streams)
 	return c
 }
 
@@ -270,7 +369,12 @@ func checkGradual(c histCase) (o pbt.Outcome) {
 		o.Violation = "runtime panic: " + tr.Panic
 		return
 	}
+	if len(tr.Other) > 0 {
+		o.Violation = tr.Other[0]
+		return
+	}
 	label := labelSet(&o)
+	groupLabels(c, tr, label)
 	for _, st := range tr.Steps {
 		if st.Kind != "round" {
 			if st.Deviates() {
@@ -333,13 +437,13 @@ func checkGradual(c histCase) (o pbt.Outcome) {
 func episodes(tr hf.Trace) string {
 	s := ""
 	for _, ep := range tr.Episodes {
-		s += fmt.Sprintf("[fuse+%ds gap=%d R=%d maxprior=%d interrupted=%v tainted=%v recovered=%v] ", ep.FuseT-hf.T0, ep.Gap, ep.R, ep.MaxPrior, ep.Interrupted, ep.Tainted, ep.Recovered)
+		s += fmt.Sprintf("[replica %d fuse+%ds gap=%d R=%d maxprior=%d interrupted=%v tainted=%v recovered=%v] ", ep.Node, ep.FuseT-hf.T0, ep.Gap, ep.R, ep.MaxPrior, ep.Interrupted, ep.Tainted, ep.Recovered)
 	}
 	return s
 }
 
 func TestC27Gradual(t *testing.T) {
 	pbt.Run(t, pbt.Spec{ID: "C27", Sub: "gradual", Quick: 8000, Thorough: 50000,
-		Rule: "gradual policy; 2-15 breaker episodes, each fused 0-7 s (soon), 8 s (edge, not judged) or 9-300 s after the previous recovery, followed by runs of 1-25 passing rounds, failing probes, master-down and unhealthy-replication rounds, re-trips, and usually a run of up to 125 passing rounds that ends at the recovery; non-trivial = at least two measured episodes of which one needed two or more successful rounds",
+		Rule: "gradual policy; a group of 1-3 replicas (strategies from one DBInfo.InitFuseRecoveryPolicy call, streams randomly interleaved, invariants per replica); per replica 1-15 breaker episodes, each fused 0-7 s (soon), 8 s (edge, not judged) or 9-300 s after the previous recovery, followed by runs of 1-25 passing rounds, failing probes, master-down and unhealthy-replication rounds, re-trips, and usually a run of up to 125 passing rounds that ends at the recovery; non-trivial = at least two measured episodes of which one needed two or more successful rounds",
 		Floor: 0.5}, genGradual, checkGradual)
 }
